@@ -394,7 +394,8 @@ def executed_true_region(body):
                 continue
             neg = ("not", ex) if ex[0] == "field" else ex[1]
             for (sb, sx) in stores:
-                if sx not in (ex, neg) or not body.dominates(sb, e.src) or sb == e.src:
+                # (a store in the very block that ends with the test precedes the test: the switch is the block's terminator)
+                if sx not in (ex, neg) or not (body.dominates(sb, e.src) or sb == e.src):
                     continue
                 fname = ex[1] if ex[0] == "field" else ex[1][1]
                 dom = body.dominated_by_block(sb)
